@@ -286,6 +286,7 @@ theorem inv_step' (pg : PG P) (op : Op P) (h : Inv pg) : Inv (step pg op).1 := b
   | sharedGroups ps => exact h
   | size => exact h
   | allProteins => exact h
+  | read r => exact h
 
 theorem inRange_step (pg : PG P) (op : Op P) (h : InRange pg) : InRange (step pg op).1 := by
   cases op with
@@ -331,6 +332,7 @@ theorem inRange_step (pg : PG P) (op : Op P) (h : InRange pg) : InRange (step pg
   | sharedGroups ps => exact h
   | size => exact h
   | allProteins => exact h
+  | read r => exact h
 
 theorem run_induction (Q : PG P → Prop) (hstep : ∀ pg op, Q pg → Q (step pg op).1) :
     ∀ (ops : List (Op P)) (pg : PG P), Q pg → Q (run pg ops) := by
